@@ -11,7 +11,10 @@ import (
 // VFlt models a float as an exact rational N/D with D > 0 (assumption FL: rounding never
 // changes the comparisons / truncations the code performs; listed in every evidence file that
 // depends on it).
-type VFlt struct{ N, D *T }
+type VFlt struct {
+	N, D *T
+	min  *[2]VFlt // set when the value was produced by math.Min (lemma FL: truncation is monotone)
+}
 
 func isFloat(t types.Type) bool {
 	b, ok := t.Underlying().(*types.Basic)
@@ -324,7 +327,7 @@ func (x *Exec) floatVal(f float64) VFlt {
 	if r.SetFloat64(f) == nil {
 		x.fail("non-finite float constant")
 	}
-	return VFlt{term.Big(r.Num()), term.Big(r.Denom())}
+	return VFlt{N: term.Big(r.Num()), D: term.Big(r.Denom())}
 }
 
 func (x *Exec) floatBin(st *State, op token.Token, a, b VFlt, resT types.Type, pos token.Pos) Val {
@@ -365,25 +368,31 @@ func (x *Exec) floatBin(st *State, op token.Token, a, b VFlt, resT types.Type, p
 func normFlt(n, d *T) VFlt {
 	if n.IsConst() && d.IsConst() && d.Val.Sign() != 0 {
 		r := new(big.Rat).SetFrac(n.Val, d.Val)
-		return VFlt{term.Big(r.Num()), term.Big(r.Denom())}
+		return VFlt{N: term.Big(r.Num()), D: term.Big(r.Denom())}
 	}
-	return VFlt{n, d}
+	return VFlt{N: n, D: d}
 }
 
 func fltMin(a, b VFlt) VFlt {
 	c := term.Le(term.Mul(a.N, b.D), term.Mul(b.N, a.D))
-	return VFlt{term.Ite(c, a.N, b.N), term.Ite(c, a.D, b.D)}
+	return VFlt{N: term.Ite(c, a.N, b.N), D: term.Ite(c, a.D, b.D), min: &[2]VFlt{a, b}}
 }
 func fltAbs(a VFlt) VFlt {
-	return VFlt{term.Ite(term.Lt(a.N, term.I(0)), term.Neg(a.N), a.N), a.D}
+	return VFlt{N: term.Ite(term.Lt(a.N, term.I(0)), term.Neg(a.N), a.N), D: a.D}
 }
-func fltFloor(a VFlt) VFlt { return VFlt{term.EDiv(a.N, a.D), term.I(1)} }
+func fltFloor(a VFlt) VFlt { return VFlt{N: term.EDiv(a.N, a.D), D: term.I(1)} }
 func fltCeil(a VFlt) VFlt {
-	return VFlt{term.Neg(term.EDiv(term.Neg(a.N), a.D)), term.I(1)}
+	return VFlt{N: term.Neg(term.EDiv(term.Neg(a.N), a.D)), D: term.I(1)}
 }
 
 // fltTrunc is Go's float -> integer conversion (truncation toward zero).
-func fltTrunc(a VFlt) *T { return term.Div(a.N, a.D) }
+func fltTrunc(a VFlt) *T {
+	if a.min != nil {
+		p, q := fltTrunc(a.min[0]), fltTrunc(a.min[1])
+		return term.Ite(term.Le(p, q), p, q)
+	}
+	return term.Div(a.N, a.D)
+}
 
 // ---------------------------------------------------------------- conversions
 
